@@ -28,6 +28,7 @@ import (
 	"io"
 	"math/rand"
 	"os"
+	"runtime"
 	"sort"
 	"strings"
 	"sync"
@@ -318,7 +319,7 @@ func (c *vcfsConc) quiet(done chan struct{}, gids func() []string) bool {
 		if idle < vcfsConcDeadline {
 			continue
 		}
-		all := true
+		all := !vcfsAnyRunnable()
 		for _, g := range gids() {
 			if !vcfsParkedForMinutes(g) {
 				all = false
@@ -329,6 +330,22 @@ func (c *vcfsConc) quiet(done chan struct{}, gids func() []string) bool {
 			return false
 		}
 	}
+}
+
+// vcfsAnyRunnable reports whether any goroutine other than the caller is running or runnable (then
+// somebody can still make progress, however slowly, and nothing is declared a deadlock).
+func vcfsAnyRunnable() bool {
+	self := vcfsGoID()
+	buf := make([]byte, 1<<22)
+	buf = buf[:runtime.Stack(buf, true)]
+	for _, ln := range strings.Split(string(buf), "\n") {
+		if strings.HasPrefix(ln, "goroutine ") && !strings.HasPrefix(ln, "goroutine "+self+" [") {
+			if strings.Contains(ln, "[running") || strings.Contains(ln, "[runnable") {
+				return true
+			}
+		}
+	}
+	return false
 }
 
 func (c *vcfsConc) finalChecks() {
@@ -371,17 +388,30 @@ func vcfsRunSchedule(scn vcfsConcScenario) []vcfsEvent {
 	var wg sync.WaitGroup
 	gids := map[string]bool{}
 	var gmu sync.Mutex
+	gidList := func() []string {
+		gmu.Lock()
+		defer gmu.Unlock()
+		out := []string{}
+		for g := range gids {
+			out = append(out, g)
+		}
+		return out
+	}
+	dead := false
 	waitFor := func(ch chan struct{}) {
-		if ch == nil {
+		if ch == nil || dead {
 			return
 		}
 		select {
 		case <-ch:
+			return
 		case <-time.After(2 * time.Second):
-			// It waits for a Keep write the schedule has not released yet (or the model and the
-			// code disagree about what blocks): let everything through rather than wait forever.
-			gate.openAll()
-			<-ch
+		}
+		// It waits for a Keep write the schedule has not released yet (or the model and the code
+		// disagree about what blocks): let everything through rather than wait forever.
+		gate.openAll()
+		if !c.quiet(ch, gidList) {
+			dead = true
 		}
 	}
 	unapplied := 0
@@ -411,6 +441,9 @@ func vcfsRunSchedule(scn vcfsConcScenario) []vcfsEvent {
 	}
 	for _, st := range scn.Steps {
 		st := st
+		if dead {
+			break
+		}
 		switch st.Op {
 		case "seek", "read", "trunc", "write":
 			waitFor(busy[st.H])
@@ -431,22 +464,22 @@ func vcfsRunSchedule(scn vcfsConcScenario) []vcfsEvent {
 				unapplied++
 				continue
 			}
+			// Fidelity only (never a verdict): give the goroutine of the released write the time to
+			// re-lock the file and finish, which shows as the goroutine count dropping.
+			ng := runtime.NumGoroutine()
 			gp.rel <- st.OK
-			time.Sleep(2 * time.Millisecond)
+			for i := 0; i < 100 && runtime.NumGoroutine() >= ng; i++ {
+				time.Sleep(500 * time.Microsecond)
+			}
 		}
 	}
 	gate.openAll()
-	done := make(chan struct{})
-	go func() { wg.Wait(); close(done) }()
-	ok := c.quiet(done, func() []string {
-		gmu.Lock()
-		defer gmu.Unlock()
-		out := []string{}
-		for g := range gids {
-			out = append(out, g)
-		}
-		return out
-	})
+	ok := !dead
+	if ok {
+		done := make(chan struct{})
+		go func() { wg.Wait(); close(done) }()
+		ok = c.quiet(done, gidList)
+	}
 	c.mu.Lock()
 	c.events[0]["unapplied"] = unapplied
 	c.mu.Unlock()
@@ -593,8 +626,6 @@ func vcfsRunConcRandom(scn vcfsConcScenario) []vcfsEvent {
 					if vcfsSamePath(full(dir), q) {
 						continue // (known finding KF-C08-1)
 					}
-					before := len(c.events)
-					_ = before
 					c.exec(w, hs, vcfsOp{Op: "rename", P: full(dir), Q: q})
 					// follow what really happened
 					if _, err := c.fs.Stat(c.plainPath(full(dir))); err != nil {
@@ -694,7 +725,12 @@ func TestVerifC13(t *testing.T) {
 	})
 	defer func(bs, cw int) { maxBlockSize, concurrentWriters = bs, cw }(maxBlockSize, concurrentWriters)
 	tw := vNewTraceWriter(os.Getenv("VERIF_TRACES"))
+	deadlocks := 0
 	for _, s := range scns {
+		if deadlocks >= 2 {
+			// every further scenario would cost the full deadline again; the judge already has two
+			break
+		}
 		// marker for attributing race-detector reports (written to the same stream) to a scenario
 		fmt.Fprintf(os.Stderr, "VERIF-SCN %d\n", s.ID)
 		var evs []vcfsEvent
@@ -705,6 +741,9 @@ func TestVerifC13(t *testing.T) {
 		}
 		for _, ev := range evs {
 			tw.Write(ev)
+			if ev["ev"] == "deadlock" {
+				deadlocks++
+			}
 		}
 	}
 	tw.Close()
